@@ -604,7 +604,8 @@ def replay_anticipated(states, extra):
             keys.add((label, out['sees'], out['want']))
             broken = statement_check(False, req, inp, res)
             got = type(res['exc']).__name__ if res['k'] == 'raise' else res['k']
-            if got != out['want']:
+            # a refinement (a subclass of the documented class) still IS that class: only its loss is a violation
+            if got != out['want'] and not (res['k'] == 'raise' and out['want'] in mro_names(type(res['exc']))):
                 broken.append('anticipated-class-lost')
             if sample is None and label != 'formula':
                 sample = {'tokens': ids, 'submitted': inp, 'to': label, 'spec_class': out['want'], 'observed': describe(res)}
@@ -1311,7 +1312,8 @@ def replay(ctx, rec):
             res = spy_call(g, None, inp, 120)
             got = type(res['exc']).__name__ if res['k'] == 'raise' else res['k']
             print('%s <- %r: specification %s, escaped %s' % (label, inp, sig['spec_class'], short(describe(res))))
-            ok = ok and got == sig['spec_class'] and not statement_check(False, req, inp, res)
+            kept = got == sig['spec_class'] or (res['k'] == 'raise' and sig['spec_class'] in mro_names(type(res['exc'])))
+            ok = ok and kept and not statement_check(False, req, inp, res)
         return ok
     if sig.get('part') == 'shared':
         cfg = sig['debug_flags']
